@@ -65,6 +65,9 @@ def build(types, dt100, stop=1000, spawn=None, default_v=2):
         def begin_round(self, time, sim_round, step):
             self._calls.append("begin")
             self._times.append(time)
+            for p in self._plan:            # events the model itself sends at the beginning of the round
+                if p["op"] == "PlanBegin" and p["k"] == self._stepidx:
+                    self.enqueue_event(make_event(p, None))
 
         def end_round(self, time, sim_round, step):
             self._calls.append("end")
